@@ -23,10 +23,14 @@ Require Import LdkV.Prim.U64.
 Open Scope Z_scope.
 Local Open Scope list_scope.
 
-Inductive fkind := FWrite (v : Z) | FRemove | FRead.
+(** [FFail]: a write/remove whose callback FAILS inside the lock (rename / unlink / fsync error): it takes
+    a version and a lock reference like any mutation, returns an error, changes neither the file nor -
+    this is the point - the entry's last written version ([callback().map(|_| *last = version)]). *)
+Inductive fkind := FWrite (v : Z) | FRemove | FRead | FFail.
 Record fop := { f_key : Z; f_kind : fkind }.
 Definition is_mut (o : fop) : bool := match f_kind o with FRead => false | _ => true end.
 Definition effect (o : fop) : option Z := match f_kind o with FWrite v => Some v | _ => None end.
+Definition is_eff (o : fop) : bool := match f_kind o with FWrite _ | FRemove => true | _ => false end.
 
 Inductive phase := PNew | PFetched (ver : Z) | PRef (ver : Z) | PExec (ver : Z) | PDone (ver : Z).
 
@@ -93,7 +97,7 @@ Definition fstep (ops : list fop) (st : fstate) (l : label) : option fstate :=
     match f_phase st i, f_locks st k with
     | PRef v, Some e =>
       if is_mut (opn ops i) then
-        if v <=? l_last e then
+        if (v <=? l_last e) || negb (is_eff (opn ops i)) then
           Some {| f_next := f_next st; f_locks := f_locks st; f_fs := f_fs st; f_ver := f_ver st;
                   f_phase := updn (f_phase st) i (PExec v); f_obs := f_obs st |}
         else
